@@ -309,7 +309,7 @@ func main() {
 			c.Failf(class("layout-dependent"), "the ring with spare capacity behind it clips to %v | %s", g2, desc)
 		}
 		// the same problem scaled by a power of two (exact in float64): the bit-for-bit scaled result
-		for _, k := range []float64{1024, 1.0 / 64} {
+		for _, k := range []float64{1024, 1.0 / (1 << 40)} {
 			if gs := smartclip.Ring(refgeom.ScaleBound(box, k), refgeom.Scale(ring, k).(orb.Ring), o); !refgeom.Equal(gs, refgeom.Scale(got, k)) {
 				c.Failf(class("scaling"), "scaled by %v the ring clips to %v | %s", k, gs, desc)
 			}
